@@ -185,10 +185,11 @@ PROPS = {
                 "Handoff.drain on the same arrival order with the capacities and the slot-reservation structure the "
                 "translator read from accept_uni/accept_bi; the same with 1..40 datagrams sent first that the application "
                 "never asks for (model: WorkerLoop on the same schedule with the await-freedom of the select handlers "
-                "read from run_impl); non-trivial = distinct line",
+                "read from run_impl), and with the stalled streams held for 1.5 s / 6.5 s (thorough: up to 21 s) before one more "
+                "healthy stream of each kind and the close; non-trivial = distinct line",
         "extracted_keys": ["CAP_READY_UNI_WT", "CAP_READY_BI_WT", "CAP_READY_UNI_H3", "CAP_READY_BI_H3",
                            "HANDOFF_RESERVE_FIRST_UNI", "HANDOFF_RESERVE_FIRST_BI", "CAP_READY_DATAGRAMS",
-                           "WORKER_HANDLERS_AWAIT_FREE", "DGRAM_SLOT_BEFORE_READ", "WORKER_SELECT_ARMS"],
+                           "WORKER_HANDLERS_AWAIT_FREE", "DGRAM_SLOT_BEFORE_READ", "WORKER_SELECT_ARMS", "DRIVER_TIMER_FREE"],
         "trusted": ["tokio mpsc (bounded FIFO, Sender::send waits for capacity) and quinn accept_uni/accept_bi (streams "
                     "in id order) are the specification record of the pipeline's parts"],
         "assumptions": ["fair scheduling of spawned tasks (tokio); the application keeps accepting",
